@@ -52,11 +52,18 @@ func verifHarnessC06() {
 			db = vStep(db, opts, kp, m, ops, "C06.pre")
 		}
 		verifAssert(db.Merge() == nil, "C06.premerge-err")
-		verifAssert(db.Close() == nil, "C06.premerge-close-err")
-		db, err = Open(opts)
-		verifAssert(err == nil, "C06.premerge-reopen-err")
-		verifSameMapping(db, kp, m, "C06.after-first-adoption")
-		verifReach("second-generation")
+		if verifParam("prestay") == 1 {
+			// the first merge is never adopted: the process stays up and merges again over the leftover
+			// (finished, un-adopted) merge directory of the first
+			verifSameMapping(db, kp, m, "C06.after-first-merge")
+			verifReach("second-merge-over-leftover-directory")
+		} else {
+			verifAssert(db.Close() == nil, "C06.premerge-close-err")
+			db, err = Open(opts)
+			verifAssert(err == nil, "C06.premerge-reopen-err")
+			verifSameMapping(db, kp, m, "C06.after-first-adoption")
+			verifReach("second-generation")
+		}
 	}
 	for step := 0; step < K; step++ {
 		db = vStep(db, opts, kp, m, ops, "C06")
